@@ -1139,6 +1139,38 @@ class Model(object):
                     if len(body) == 1 and isinstance(body[0], ast.Return) and not kwargs and len(args) == len(fn.args.args):
                         env2 = dict(zip([a.arg for a in fn.args.args], args))
                         return ev(body[0].value, r[1].module, env2)
+                    # a pure builder (a pattern assembled from its arguments): straight-line assignments to locals, ifs on
+                    # folded tests and a return - folded statement by statement
+                    params = [a.arg for a in fn.args.args]
+                    if not (fn.args.vararg or fn.args.kwarg or fn.args.kwonlyargs) and len(args) <= len(params) \
+                            and not fn.decorator_list:
+                        env2 = dict(zip(params, args))
+                        env2.update(kwargs)
+                        for p_, d in zip(params[len(params) - len(fn.args.defaults):], fn.args.defaults):
+                            if p_ not in env2:
+                                env2[p_] = ev(d, r[1].module, {})
+                        if set(params) <= set(env2):
+                            class _Ret(Exception):
+                                pass
+
+                            def run(stmts, depth=0):
+                                for st in stmts:
+                                    if isinstance(st, ast.Expr) and isinstance(st.value, ast.Constant):
+                                        continue
+                                    if isinstance(st, ast.Assign) and len(st.targets) == 1 and isinstance(st.targets[0], ast.Name):
+                                        env2[st.targets[0].id] = ev(st.value, r[1].module, env2)
+                                    elif isinstance(st, ast.If) and depth < 4:
+                                        run(st.body if ev(st.test, r[1].module, env2) else st.orelse, depth + 1)
+                                    elif isinstance(st, ast.Return):
+                                        e_ = _Ret()
+                                        e_.value = ev(st.value, r[1].module, env2) if st.value is not None else None
+                                        raise e_
+                                    else:
+                                        raise NotConst("statement %s in builder %s" % (type(st).__name__, fname))
+                            try:
+                                run(body)
+                            except _Ret as e_:
+                                return e_.value
             raise NotConst("call %s is not foldable" % (fname or ast.dump(node.func)))
         if isinstance(node, ast.IfExp):
             return ev(node.body, m, env) if ev(node.test, m, env) else ev(node.orelse, m, env)
